@@ -632,6 +632,13 @@ fn check_trees<S: Open>(
     collector: &CheckResultsCollector,
 ) -> RusticResult<BTreeSet<PackId>> {
     let mut packs = BTreeSet::new();
+    // The packs holding the root trees of the snapshots are used, too: without this, a pack
+    // which only contains root trees is never read (and hence never verified) by `read_data`.
+    for id in &snap_trees {
+        if let Some(entry) = index.get_tree(id) {
+            _ = packs.insert(entry.pack);
+        }
+    }
     let p = repo.progress_counter("checking trees...");
     let mut tree_streamer = TreeStreamerOnce::new(be, index, snap_trees, p)?;
     while let Some(item) = tree_streamer.next().transpose()? {
